@@ -14,15 +14,20 @@ func Ls3(dip *inode.Inode, op *fstxn.FsTxn, start nfstypes.Cookie3, dircount, ma
 	var last *nfstypes.Entryplus3
 	eof := dir.Apply(dip, op, uint64(start), uint64(dircount), uint64(maxcount),
 		func(ip *inode.Inode, name string, inum common.Inum, off uint64) {
-			fattr := ip.MkFattr()
-			fh := &fh.Fh{Ino: ip.Inum, Gen: ip.Gen}
-			ph := nfstypes.Post_op_fh3{
-				Handle_follows: true,
-				Handle:         fh.MakeFh3(),
-			}
-			pa := nfstypes.Post_op_attr{
-				Attributes_follow: true,
-				Attributes:        fattr,
+			// attributes and handle are optional (RFC 1813): they are left
+			// out for an entry whose inode Apply could not lock
+			var ph nfstypes.Post_op_fh3
+			var pa nfstypes.Post_op_attr
+			if ip != nil {
+				fh := &fh.Fh{Ino: ip.Inum, Gen: ip.Gen}
+				ph = nfstypes.Post_op_fh3{
+					Handle_follows: true,
+					Handle:         fh.MakeFh3(),
+				}
+				pa = nfstypes.Post_op_attr{
+					Attributes_follow: true,
+					Attributes:        ip.MkFattr(),
+				}
 			}
 			e := &nfstypes.Entryplus3{
 				Fileid:          nfstypes.Fileid3(inum),
